@@ -24,6 +24,7 @@ at the top-level directory.
 #include <stdlib.h>
 #include <stdio.h>
 #include "slu_mt_ddefs.h"
+#include "slu_mt_verif.h"
 
 
 void superlu_abort_and_exit(char* msg)
@@ -251,6 +252,7 @@ fixupL(const int_t n, const int_t *perm_r, GlobalLU_t *Glu)
 	fsupc = xsup[i];
 	jstrt = xlsub[fsupc];
 	xlsub[fsupc] = nextl;
+	SLU_VERIF_EV("FixupMove", -1, i, jstrt, nextl, xlsub_end[fsupc] - jstrt);
 	for (j = jstrt; j < xlsub_end[fsupc]; j++) {
 	    lsub[nextl] = perm_r[lsub[j]]; /* Now indexed into P*A */
 	    nextl++;
